@@ -161,7 +161,49 @@ class Engine:
             self.freed += info["collected"]
 
     # ------------------------------------------------------------------ running
-    def run(self):
+    def step(self, step):
+        """Execute one operation (with monitors); returns False when the library raised."""
+        rec = self.rec
+        if self.script:
+            kind, self.force_kinds = self.script[step]
+        else:
+            kind = self.choose()
+        op = {"step": step, "op": kind}
+        self.last_footprint = {"content": set(), "links": set(), "create": False, "delete": set(), "any_type": False, "types": set()}
+        for m in self.monitors:
+            m.before(self, op)
+        ok = True
+        try:
+            getattr(self, "op_" + kind)(op)
+        except ExpectedRefusal as r:
+            op["refused"] = str(r)
+        except Exception as exc:  # noqa: BLE001
+            ok = False
+            op["raised"] = f"{type(exc).__name__}: {str(exc)[:200]}"
+            from .core import exc_origin
+
+            in_lib, fn = exc_origin(exc)
+            if not in_lib:
+                raise
+            rec.fail(f"{self.prop}.op-raises", op=kind, cls=op.get("cls", ""), attr=f"{type(exc).__name__}@{fn}", detail=f"{op} -> {op['raised']}")
+            self.aborted = op
+        self.log.append(op)
+        if os.environ.get("GVM_TRACE"):
+            print("OP", {k: v for k, v in op.items() if k != "removed"}, flush=True)
+        rec.see("op:" + kind)
+        if not ok:
+            return False
+        for m in self.monitors:
+            m.after(self, op, ok)
+        if self.gc_plan == "every" or (self.gc_plan == "seeded" and self.rng.random() < 0.3):
+            gc.collect()
+            rec.see("gc-points")
+        if self.ref_policy == "drop" or (self.ref_policy == "strong" and self.rng.random() < 0.1):
+            self.refs.clear()
+        return True
+
+    def run(self, body=None):
+        """Run the whole history (or a caller-supplied body that drives step())."""
         rec = self.rec
         gc_was = gc.isenabled()
         if self.gc_plan == "off":
@@ -170,45 +212,14 @@ class Engine:
         try:
             for m in self.monitors:
                 m.start(self)
-            for step in range(len(self.script) or self.n_ops):
-                if self.script:
-                    kind, self.force_kinds = self.script[step]
-                else:
-                    kind = self.choose()
-                op = {"step": step, "op": kind}
-                self.last_footprint = {"content": set(), "links": set(), "create": False, "delete": set(), "any_type": False, "types": set()}
-                for m in self.monitors:
-                    m.before(self, op)
-                ok = True
-                try:
-                    getattr(self, "op_" + kind)(op)
-                except ExpectedRefusal as r:
-                    op["refused"] = str(r)
-                except Exception as exc:  # noqa: BLE001
-                    ok = False
-                    op["raised"] = f"{type(exc).__name__}: {str(exc)[:200]}"
-                    from .core import exc_origin
-
-                    in_lib, fn = exc_origin(exc)
-                    if not in_lib:
-                        raise
-                    rec.fail(f"{self.prop}.op-raises", op=kind, cls=op.get("cls", ""), attr=f"{type(exc).__name__}@{fn}", detail=f"{op} -> {op['raised']}")
-                    self.aborted = op
-                self.log.append(op)
-                if os.environ.get("GVM_TRACE"):
-                    print("OP", {k: v for k, v in op.items() if k != "removed"}, flush=True)
-                rec.see("op:" + kind)
-                if not ok:
-                    break
-                for m in self.monitors:
-                    m.after(self, op, ok)
-                if self.gc_plan == "every" or (self.gc_plan == "seeded" and self.rng.random() < 0.3):
-                    gc.collect()
-                    rec.see("gc-points")
-                if self.ref_policy == "drop" or (self.ref_policy == "strong" and self.rng.random() < 0.1):
-                    self.refs.clear()
-            if self.aborted is None:
-                self.close_and_check(final=True)
+            if body is not None:
+                body(self)
+            else:
+                for step in range(len(self.script) or self.n_ops):
+                    if not self.step(step):
+                        break
+                if self.aborted is None:
+                    self.close_and_check(final=True)
             for m in self.monitors:
                 m.finish(self)
         finally:
